@@ -1056,3 +1056,10 @@ v("C14", "merge-absolute-range-from-upper", "fire", F,
 v("C13", "fromYAMLfile-drops-name", "fire", T,
   "        return Tensor.fromFiber(rank_ids, root, shape=shape, name=name)",
   "        return Tensor.fromFiber(rank_ids, root, shape=shape)", "C13.R1")
+
+
+# D19 (fix: yaml reader matches writer)
+v("C13", "tensor-parse-safe-load", "fire", T,
+  "                y_file = yaml.full_load(stream)", "                y_file = yaml.safe_load(stream)", "C13.R1")
+v("C13", "silent-tensor-dump-parse-both-safe", "silent", T,
+  "            yaml.dump(tensor_dict, file)", "            yaml.dump(tensor_dict, file, Dumper=yaml.Dumper)", None)
